@@ -33,6 +33,17 @@ theorem C15_footprint {st : Region} {abs : Nat → Option ByteArray} (inv : Inv 
       FreeOrOwn st k (writeRun st k data.size) (needOf data.size) :=
   ⟨writeSector_writesIn st hk data now hn, inv.writeRun_freeOrOwn k data.size⟩
 
+/-
+  Entry points.  `C15_isolation` is stated for `load` of the crash image.  The unchanged `region.Open(name)` is
+  `os.OpenFile(name, os.O_RDWR, 0o666)` followed by `Load(f)` (the file is closed again if `Load` fails) and nothing
+  else: it adds no check of its own, so on a regular file it succeeds exactly when `Load` does and returns the same
+  Region; the theorem transfers to re-opening through `Open`.  That `Open` really is "OpenFile + Load" is not proved
+  but checked by the correspondence: `region.crash ... :reopen=open` lines write every crash image to a real file in
+  the check's work directory, re-open it through `region.Open` as well as through `Load`, and require both to succeed
+  and to agree (the same chunks readable with the same bytes, the same absences); `region.hist mode=file` alternates
+  its re-open step between `Open` and `OpenFile + Load`.
+-/
+
 /-- `C15_isolation`: after a crash at ANY point of `WriteSector(x,z,data)` — any number `j` of its writes applied
     and any `c` bytes of the next one — `Load` of the file succeeds, and every other chunk (x',z') reads back
     exactly what it read before (`readSector`, `existSector` agree with the pre-state), which by the invariant
